@@ -208,10 +208,7 @@ func c19Gen(tier string, emit func(any)) {
 					indents = []int{0}
 				}
 				for _, pre := range preHeader {
-					// a blank line before the first header is not a legal layout
-					if at == 0 && contains(pre, "") {
-						continue
-					}
+					// (blank lines before the first header are legal since fix 7a4d28e and are part of the universe)
 					metaPres := preMeta
 					if f.header {
 						metaPres = [][]string{{}}
@@ -267,11 +264,11 @@ func c19Gen(tier string, emit func(any)) {
 										}
 									}
 								}
-								for _, mode := range []string{"api", "cli-p", "cli-stdin", "cli-p2", "cli-P2"} {
+								for _, mode := range []string{"api", "cli-p", "cli-stdin", "cli-p2", "cli-P2", "cli-nogo"} {
 									if mode != "api" && indent != 0 {
 										continue
 									}
-									if (mode == "cli-p2" || mode == "cli-P2") && (len(pre)+len(mp) > 1 || named) {
+									if (mode == "cli-p2" || mode == "cli-P2" || mode == "cli-nogo") && (len(pre)+len(mp) > 1 || named) {
 										continue
 									}
 									name := "p.patch"
@@ -366,6 +363,14 @@ func c19Run(env *core.Env, ci any) core.Outcome {
 			args = []string{"."}
 			stdin = c.Patch
 			shown = "stdin"
+		}
+		if c.Mode == "cli-nogo" {
+			// the targets select no Go file at all: the patch is rejected all the same
+			os.MkdirAll(filepath.Join(root, "t", "docs", "testdata"), 0o755)
+			os.WriteFile(filepath.Join(root, "t", "docs", "readme.txt"), []byte("x\n"), 0o644)
+			os.WriteFile(filepath.Join(root, "t", "docs", "testdata", "x.go"), []byte("package x\n"), 0o644)
+			before, _ = drive.Snap(filepath.Join(root, "t"))
+			args = []string{"-p", pfile, "docs"}
 		}
 		if c.Mode == "cli-p2" || c.Mode == "cli-P2" {
 			// the faulty patch is not the first one that is loaded
